@@ -77,7 +77,17 @@ pub enum Op {
     MineMany { n: u8, take: Take },
     /// replace the last `depth` blocks by depth+extra new ones; `first` goes into the first new block,
     /// `later` into the (1 + later_at)-th
-    Reorg { depth: u8, extra: u8, first: Vec<TxRef>, later_at: u8, later: Vec<TxRef> },
+    Reorg {
+        depth: u8,
+        extra: u8,
+        first: Vec<TxRef>,
+        later_at: u8,
+        later: Vec<TxRef>,
+        /// the transactions of the disconnected blocks do not return to the node's mempool (a node restarted without its
+        /// mempool, eviction under pressure): whoever wants them back in has to send them again
+        #[serde(default)]
+        evict: bool,
+    },
     Poll,
     /// a poll during which the n-th block download fails (persistent or transient error)
     PollFail { nth: u8, persistent: bool },
@@ -191,8 +201,10 @@ fn op(p: Profile, users: u8, chans: u8) -> BoxedStrategy<Op> {
             proptest::collection::vec(txref_p(p, chans), 0..3),
             0u8..4,
             proptest::collection::vec(txref_p(p, chans), 0..3),
+            // (crash profile only: the other profiles have a model of the node's mempool to keep in step)
+            if p == Profile::Crash { proptest::bool::weighted(0.4).boxed() } else { Just(false).boxed() },
         )
-            .prop_map(|(depth, extra, first, later_at, later)| Op::Reorg { depth, extra, first, later_at, later })
+            .prop_map(|(depth, extra, first, later_at, later, evict)| Op::Reorg { depth, extra, first, later_at, later, evict })
     };
     let policy = (txref_p(p, chans), prop_oneof![3 => Just(Some(-26)), 1 => Just(Some(-25)), 1 => Just(Some(-1)), 1 => Just(Some(-28)), 1 => Just(Some(-10)), 1 => Just(Some(-22)), 3 => Just(None)])
         .prop_map(|(tx, code)| Op::SetPolicy { tx, code });
